@@ -2,7 +2,7 @@
 (***************************************************************************)
 (* C04, trace validation in semantic form (B2): every recorded call of the  *)
 (* real expression simplifier                                               *)
-(*    ev = [ev, tbl, before, after, nonnull, guar]                          *)
+(*    ev = [ev, tbl, before, after, nonnull, guar, filt]                    *)
 (* is accepted iff, for EVERY row of the exhaustive small-scope table that  *)
 (* is in the call's scope (columns declared non-nullable hold no NULL, and  *)
 (* the row satisfies the column guarantees given to the simplifier),        *)
@@ -33,7 +33,10 @@ InScope(ev, row) ==
 Witness(ev, r) ==
   LET row == RowAt(ev.tbl, r) IN
   /\ InScope(ev, row)
-  /\ LET b == Eval(ev.before, row) IN ~IsErr(b) /\ Eval(ev.after, row) # b
+  /\ LET b == Eval(ev.before, row)
+         a == Eval(ev.after, row) IN
+     \* ev.filt: the call rewrites the conjuncts of a filter predicate: only "the row is kept" (TRUE) must be preserved
+     ~IsErr(b) /\ (IF ev.filt THEN IsTrue(a) # IsTrue(b) ELSE a # b)
 Scope(ev) == {r \in 1..NRowsOf(ev.tbl) : InScope(ev, RowAt(ev.tbl, r))}
 
 CHUNK == 20
